@@ -246,7 +246,7 @@ def c02(tier):
                         ck.sample(dict(case_id(g, wi, qi, d, defs), global_depth=g2, effective=e, observed=c))
     # every recorded witness must still reproduce; otherwise the entry is stale
     for f in known:
-        if f["id"] not in ck.known_hits:
+        if f["id"] not in ck.known_hits and not ck.violations:
             raise Inconclusive("known finding %s did not reproduce on its witness: remove it from known_findings.json" % f["id"])
     ck.extra["clamp_comparisons"] = clamp_cases
     ck.rule = ("cases of CheckCases.tla at every depth 1..%d and width, plus out-of-range request depths and a second "
